@@ -38,6 +38,11 @@ FEATURES = [
     "from t | select {x = $1}",
 ]
 PARSER_OF = {"glaredb": "postgres"}
+# constructs of the real dialect that sqlparser 0.60's grammar for it does not accept (trusted-base gaps, not findings)
+PARSER_LIMITATIONS = [
+    ("clickhouse", r'No infix parser for token Word\(Word \{ value: "DIV"'),      # ClickHouse has `a DIV b`
+    ("clickhouse", r"Expected close delimiter '\"' before EOF"),                   # quoted-quote inside a string argument
+]
 SCHEMA = {t: [c for c, _ in cols] for t, cols in grel.SCHEMA.items()}
 
 
@@ -48,6 +53,10 @@ def judge_sql(w, sql, dialect, schema, do_bind):
     if "parser_panic" in r:
         return [], {"parser_panic": 1}
     if not r.get("ok"):
+        for (dl, pat) in PARSER_LIMITATIONS:
+            if dl == dialect and re.search(pat, r.get("parse_error", "")):
+                # the stand-in grammar is known not to cover this construct of the real dialect: no verdict
+                return [], {"parser_limitation": 1}
         msg = re.sub(r"Line: \d+, Column:? \d+", "", r.get("parse_error", "?"))
         msg = re.sub(r"\d+", "N", msg)[:90]
         out.append(("dialect_parser_rejects:" + msg, r.get("parse_error", "")[:200]))
@@ -106,7 +115,11 @@ def _shard(seed, shard, n_rel, corpus_srcs):
                 if v:
                     obs["sql_features"][k] = obs["sql_features"].get(k, 0) + 1
             obs["nontrivial"].add(hash((sql, dialect)) & 0xfffffffff)
-            out, st = judge_sql(w, sql, dialect, SCHEMA if origin == "grel" else None, do_bind=not has_sstring)
+            if has_sstring:
+                # raw SQL fragments are the user's, in whatever dialect they chose: not judged
+                obs["skipped_sstring"] = obs.get("skipped_sstring", 0) + 1
+                continue
+            out, st = judge_sql(w, sql, dialect, SCHEMA if origin == "grel" else None, do_bind=True)
             for k, v in st.items():
                 obs[k] = obs.get(k, 0) + v
             pd["parsed"] += st.get("parsed", 0)
@@ -125,14 +138,17 @@ def _shard(seed, shard, n_rel, corpus_srcs):
                 pd["violations"] += 1
                 wit = {"src": src, "dialect": dialect, "prog": prog}
                 shape = dialect
+                dl = "any" if sym.startswith("bind:") else dialect      # scoping is dialect-agnostic
                 if prog is not None:
-                    key0 = (sym, dialect, tuple(grel.kinds_of(prog)))
+                    key0 = (sym, dl, tuple(grel.kinds_of(prog)))
                     if key0 in seen:
                         viols.append({"property": "C07", "symptom": sym, "shape": None, "witness": None, "detail": det, "dupkey": key0})
                         continue
                     seen.add(key0)
                     if len([1 for v in viols if v.get("witness")]) < 25:
                         def fails(c, sym=sym, dialect=dialect):
+                            if not relcheck.well_scoped(c, db):
+                                return False
                             try:
                                 s2 = grel.pp_program(c)
                             except Exception:
@@ -152,11 +168,11 @@ def _shard(seed, shard, n_rel, corpus_srcs):
                         wit = {"src": grel.pp_program(rp), "dialect": dialect, "prog": rp}
                         r3 = w.call({"op": "compile", "src": wit["src"], "target": "sql." + dialect})
                         det = det + " || sql: " + r3.get("sql", "")[:400]
-                        shape = dialect + " :: " + relcheck.shape_of(rp)
+                        shape = dl + " :: " + relcheck.shape_of(rp)
                     else:
-                        shape = dialect + " :: " + relcheck.shape_of(prog)
+                        shape = dl + " :: " + relcheck.shape_of(prog)
                 else:
-                    shape = dialect + " :: corpus"
+                    shape = dl + " :: corpus[" + " ".join(t for t in ("join:", "append:", "group1(", "take ", "sort{", "window:") if re.search(r"\b" + re.escape(t.strip(":({ ")) + r"\b", src)) + "]:" + re.sub(r"\s+", " ", src)[:60]
                 viols.append({"property": "C07", "symptom": sym, "shape": shape, "witness": wit, "detail": det})
     w.close()
     obs["nontrivial"] = len(obs["nontrivial"])
@@ -219,7 +235,10 @@ def replay(case):
                 if cls != "engine_unsupported":
                     msg = re.sub(r"[\w.]*_expr_\d+|table_\d+(\.\w+)?|\b[a-z]\d+\.\w+", "X", e["sqlite_error"].split(" in ")[0])
                     o.append(("sqlite_prepare:" + cls + ":" + re.sub(r"\d+", "N", msg)[:60], e["sqlite_error"][:300]))
-        shape = dialect + " :: " + (relcheck.shape_of(case["prog"]) if case.get("prog") else "corpus")
-        out = [{"property": "C07", "symptom": s, "shape": shape, "witness": case, "detail": d} for s, d in o]
+        out = []
+        for s_, d in o:
+            dl = "any" if s_.startswith("bind:") else dialect
+            shape = dl + " :: " + (relcheck.shape_of(case["prog"]) if case.get("prog") else "corpus[" + " ".join(t for t in ("join:", "append:", "group1(", "take ", "sort{", "window:") if re.search(r"\b" + re.escape(t.strip(":({ ")) + r"\b", case["src"])) + "]:" + re.sub(r"\s+", " ", case["src"])[:60])
+            out.append({"property": "C07", "symptom": s_, "shape": shape, "witness": case, "detail": d})
     w.close()
     return out
